@@ -472,6 +472,35 @@ def run_classifiers(ctx, rep):
                 rep.violate(f"{name}: renaming the class labels changes the fitted coefficients",
                             dict(sig, kind="relabel-coef"), case=case.describe(),
                             impl_output=np.asarray(est2.coef_).tolist())
+        # refitting ONE estimator object on renamed labels (warm start on and off): classes_, predictions and
+        # probabilities describe the last fit, not an earlier one (seeded s12: classes_ kept across warm refits)
+        for ws in (True, False):
+            est3, err3 = fit_case(case, warm_start=ws)
+            if err3 is not None:
+                continue
+            try:
+                with warnings.catch_warnings():
+                    warnings.simplefilter("ignore")
+                    est3.fit(X, y2)
+            except Exception as e:   # noqa: BLE001
+                rep.violate(f"{name}(warm_start={ws}): a fitted classifier cannot be fitted again on renamed labels: "
+                            f"{classify_exc(e)}", dict(sig, kind="refit-raises", warm_start=ws), case=case.describe(),
+                            impl_output=str(e)[:200])
+                continue
+            rep.count(f"clf-refit:{name}:ws={ws}", False, ("clf-refit", name, ws, k))
+            cls3 = np.asarray(est3.classes_)
+            if sorted(map(str, cls3)) != sorted(set(y2.tolist())):
+                rep.violate(f"{name}(warm_start={ws}): after a refit on renamed labels classes_ is not the label set of "
+                            "the last fit", dict(sig, kind="refit-classes", warm_start=ws), case=case.describe(),
+                            impl_output=dict(classes=list(map(str, cls3)), labels=sorted(set(y2.tolist()))))
+                continue
+            d3 = est3.decision_function(X)
+            want3 = cls3[(d3 > 0).astype(int)] if k == 2 else cls3[np.argmax(d3, axis=1)]
+            p3 = np.asarray(est3.predict(X)).astype(str)
+            if not np.array_equal(p3, np.asarray(want3).astype(str)) or not set(p3.tolist()) <= set(y2.tolist()):
+                rep.violate(f"{name}(warm_start={ws}): after a refit, predict is not classes_ selected by the decision "
+                            "function", dict(sig, kind="refit-predict", warm_start=ws), case=case.describe(),
+                            impl_output=p3.tolist())
         # one-vs-rest: row k (and its intercept) is the binary model of class k
         if k > 2:
             for ci, c in enumerate(cls):
